@@ -6,7 +6,7 @@
    Shared state of the code: cursor (atomic, futex word), write_spin, read_mutex, read_cursor
    (plain, under read_mutex), blocks[] (plain).  Plain cells follow the view discipline of
    Lib/Conc.v, here with one version per plain cell (slot j, payload of message m,
-   read_cursor) and views = functions from plain cells to versions.
+   read_cursor) and views = finite maps from plain cells to versions (default 0).
    Ghost state: written (s_nw, s_wr: appended at the cursor store), writes begun (s_wbeg:
    slot stores), read-once takes in read-mutex order (s_nt, s_once, s_who), the monitors
    s_lapped (the documented no-lapping precondition was violated) and s_uncov (plain reads
@@ -61,10 +61,22 @@ Definition pcell_eqb (a b : pcell) : bool :=
   | CRc, CRc => true
   | _, _ => false
   end.
-Definition view := pcell -> Z.
-Definition vzero : view := fun _ => 0.
-Definition vjoin (a b : view) : view := fun c => Z.max (a c) (b c).
-Definition vupd (v : view) (c : pcell) (x : Z) : view := fun d => if pcell_eqb d c then x else v d.
+(* a view / version map is a finite association list (default 0); vget reads it *)
+Definition view := list (pcell * Z).
+Definition vzero : view := [].
+Fixpoint vget (v : view) (c : pcell) : Z :=
+  match v with
+  | [] => 0
+  | (d, x) :: r => if pcell_eqb c d then x else vget r c
+  end.
+Fixpoint vupd (v : view) (c : pcell) (x : Z) : view :=
+  match v with
+  | [] => [(c, x)]
+  | (d, y) :: r => if pcell_eqb c d then (d, x) :: r else (d, y) :: vupd r c x
+  end.
+(* pointwise maximum *)
+Definition vjoin (a b : view) : view :=
+  fold_left (fun acc k => vupd acc k (Z.max (vget a k) (vget b k))) (map fst a ++ map fst b) [].
 Definition zupd (f : Z -> Z) (k x : Z) : Z -> Z := fun i => if i =? k then x else f i.
 Definition zupdn (f : Z -> nat) (k : Z) (x : nat) : Z -> nat := fun i => if i =? k then x else f i.
 
@@ -232,7 +244,7 @@ Definition set_ticket (s : sys) : sys :=
   {| s_cfg := s_cfg s; s_cursor := s_cursor s; s_cur_st := s_cur_st s; s_lock := s_lock s;
      s_lock_st := s_lock_st s; s_mtx := s_mtx s; s_mtx_st := s_mtx_st s; s_rc := s_rc s;
      s_slot := s_slot s; s_pay := zupd (s_pay s) id (payf id);
-     s_ver := vupd (s_ver s) (CPay id) (s_ver s (CPay id) + 1); s_begun := id + 1;
+     s_ver := vupd (s_ver s) (CPay id) (vget (s_ver s) (CPay id) + 1); s_begun := id + 1;
      s_deliv := s_deliv s; s_nw := s_nw s; s_wr := s_wr s; s_wbeg := s_wbeg s; s_nt := s_nt s;
      s_once := s_once s; s_who := s_who s; s_lapped := s_lapped s; s_uncov := s_uncov s;
      s_thr := s_thr s |}.
@@ -242,7 +254,7 @@ Definition set_slot (s : sys) (m : Z) (lap : bool) : sys :=
   {| s_cfg := s_cfg s; s_cursor := s_cursor s; s_cur_st := s_cur_st s; s_lock := s_lock s;
      s_lock_st := s_lock_st s; s_mtx := s_mtx s; s_mtx_st := s_mtx_st s; s_rc := s_rc s;
      s_slot := zupd (s_slot s) j m; s_pay := s_pay s;
-     s_ver := vupd (s_ver s) (CSlot j) (s_ver s (CSlot j) + 1); s_begun := s_begun s;
+     s_ver := vupd (s_ver s) (CSlot j) (vget (s_ver s) (CSlot j) + 1); s_begun := s_begun s;
      s_deliv := s_deliv s; s_nw := s_nw s; s_wr := s_wr s; s_wbeg := s_wbeg s + 1; s_nt := s_nt s;
      s_once := s_once s; s_who := s_who s; s_lapped := s_lapped s || lap; s_uncov := s_uncov s;
      s_thr := s_thr s |}.
@@ -267,7 +279,7 @@ Definition set_take (s : sys) (t : nat) (m : Z) (unc : nat) : sys :=
      s_lock_st := s_lock_st s; s_mtx := s_mtx s; s_mtx_st := s_mtx_st s;
      s_rc := (s_rc s + 1) mod cap (s_cfg s);
      s_slot := s_slot s; s_pay := s_pay s;
-     s_ver := vupd (s_ver s) CRc (s_ver s CRc + 1); s_begun := s_begun s;
+     s_ver := vupd (s_ver s) CRc (vget (s_ver s) CRc + 1); s_begun := s_begun s;
      s_deliv := s_deliv s; s_nw := s_nw s; s_wr := s_wr s; s_wbeg := s_wbeg s; s_nt := s_nt s + 1;
      s_once := zupd (s_once s) (s_nt s) m; s_who := zupdn (s_who s) (s_nt s) t;
      s_lapped := s_lapped s; s_uncov := (s_uncov s + unc)%nat;
@@ -338,8 +350,8 @@ Definition ld_mo (P : params) (r : rmode) : memorder :=
   match r with RWait | RSingleWait => mo_ld_wait P | RBusy => mo_ld_busy P | ROnce => mo_ld_once P end.
 
 (* the plain store of one cell by thread state x: new version, own view follows *)
-Definition bump (v : view) (ver : view) (c : pcell) : view := vupd v c (ver c + 1).
-Definition covered (v ver : view) (c : pcell) : bool := v c =? ver c.
+Definition bump (v : view) (ver : view) (c : pcell) : view := vupd v c (vget ver c + 1).
+Definition covered (v ver : view) (c : pcell) : bool := vget v c =? vget ver c.
 Definition unc1 (b : bool) : nat := if b then O else 1%nat.
 
 Definition step (P : params) (s : sys) (t : nat) (ch : nat) : option (sys * label) :=
